@@ -248,6 +248,66 @@ theorem graphEdges_nodup (s : Reg) (h : Inv s) : (graphEdges s).Nodup := by
   simp only [List.map_map]
   exact hnd.2.1
 
+/-! ### counts (`num_junctions`, `num_pumps`, ..., `describe(level)`): the length of a typed set is the number of elements of its class -/
+
+theorem typed_sameSet (s : Reg) (h : Inv s) (t : TSet) (ht : t ∈ nodeSets ∨ t ∈ allLinkSets) :
+    sameSet (s.typed t) (namesOfSet s t) = true := by
+  have hnd := (nodup_iff s).1 h.nodup
+  have htn : (s.typed t).Nodup := hnd.2.2.2.2.2 t
+  rw [sameSet_iff]
+  rcases ht with ht | ht
+  · have hs := h.typedNodeSound t ht
+    simp only [namesOfSet, ht, if_true]
+    refine ⟨?_, ?_, htn⟩
+    · intro k hk
+      obtain ⟨i, hi, hik⟩ := hs k hk
+      exact (AL.mem_filter_map s.nodes hnd.1 _ k).2 ⟨i, hi, by simpa using hik⟩
+    · intro k hk
+      obtain ⟨i, hi, hik⟩ := (AL.mem_filter_map s.nodes hnd.1 _ k).1 hk
+      have := (Clause.typedNodeComplete_iff s).1 h.typedNodeComplete k i hi
+      simp only [decide_eq_true_eq] at hik
+      rwa [hik] at this
+  · have hs := h.typedLinkSound t ht
+    have hn : t ∉ nodeSets := fun hh => nodeSets_not_link t hh ht
+    simp only [namesOfSet, hn, if_false]
+    refine ⟨?_, ?_, htn⟩
+    · intro k hk
+      obtain ⟨i, hi, hik⟩ := hs k hk
+      exact (AL.mem_filter_map s.links hnd.2.1 _ k).2 ⟨i, hi, by simpa using hik⟩
+    · intro k hk
+      obtain ⟨i, hi, hik⟩ := (AL.mem_filter_map s.links hnd.2.1 _ k).1 hk
+      simp only [decide_eq_true_eq] at hik
+      exact (Clause.typedLinkComplete_iff s).1 h.typedLinkComplete k i hi t hik
+
+theorem namesOfSet_nodup (s : Reg) (h : Inv s) (t : TSet) : (namesOfSet s t).Nodup := by
+  have hnd := (nodup_iff s).1 h.nodup
+  unfold namesOfSet
+  split
+  · exact AL.nodup_filter_map s.nodes hnd.1 _
+  · exact AL.nodup_filter_map s.links hnd.2.1 _
+
+/-- **typed_count**: `num_junctions`, `num_tanks`, `num_pipes`, `num_head_pumps`, ... (the lengths of the typed sets, which is
+what `describe` and the `num_*` properties report) are the numbers of existing elements of the class -/
+theorem typed_count (s : Reg) (h : Inv s) (t : TSet) (ht : t ∈ nodeSets ∨ t ∈ allLinkSets) :
+    (s.typed t).length = (namesOfSet s t).length := by
+  obtain ⟨h1, h2, h3⟩ := (sameSet_iff _ _).1 (typed_sameSet s h t ht)
+  exact List.Perm.length_eq ((List.perm_ext_iff_of_nodup h3 (namesOfSet_nodup s h t)).2 (fun a => ⟨h1 a, h2 a⟩))
+
+/-- every node is in exactly one typed node set: `num_nodes = num_junctions + num_tanks + num_reservoirs` -/
+theorem node_count (s : Reg) (h : Inv s) :
+    s.nodes.length = (s.typed .junctions).length + (s.typed .tanks).length + (s.typed .reservoirs).length := by
+  rw [typed_count s h .junctions (Or.inl (by decide)), typed_count s h .tanks (Or.inl (by decide)),
+    typed_count s h .reservoirs (Or.inl (by decide))]
+  simp only [namesOfSet, show TSet.junctions ∈ nodeSets by decide, show TSet.tanks ∈ nodeSets by decide,
+    show TSet.reservoirs ∈ nodeSets by decide, if_true, List.length_map]
+  generalize s.nodes = l
+  induction l with
+  | nil => rfl
+  | cons hd t ih =>
+    obtain ⟨k, i⟩ := hd
+    simp only [List.length_cons, List.filter_cons, ih]
+    cases hk : i.kind <;> simp [nodeSet] <;> omega
+
 /-! ### all derived views -/
 
 /-- **views_of_inv**: under the invariant every derived view is the specification: typed iterators do not raise and enumerate
